@@ -422,11 +422,14 @@ end
 // several consumers (most of them with a context) compete for the values of a small buffered
 // channel that producers keep non-empty
 func genStress(r *lib.Rand, n int) *StressSpec {
-	nc := r.Range(4, 10)
-	st := &StressSpec{Producers: r.Range(1, 3), Consumers: nc, Cap: []int{1, 2, 2, 3, 4, 8}[r.Intn(6)], N: n,
-		Work: []int{0, 0, 3, 10, 30}[r.Intn(5)], Procs: []int{4, 8, 16, 16}[r.Intn(4)], TimeoutMs: 120000}
+	// measured on a tree with a check-then-act receive (seeded C13-3): 14 of 15 runs of 15 000
+	// values showed a false closure report with these parameters (work > 0, 2-3 producers, small
+	// capacity); work = 0 or one producer hit much less often
+	nc := r.Range(8, 12)
+	st := &StressSpec{Producers: r.Range(2, 3), Consumers: nc, Cap: []int{1, 1, 2, 2, 3}[r.Intn(5)],
+		Work: []int{3, 10, 30}[r.Intn(3)], Procs: []int{4, 8, 16, 16}[r.Intn(4)], TimeoutMs: 120000}
 	for i := 0; i < nc; i++ {
-		st.Ctx = append(st.Ctx, r.Chance(75))
+		st.Ctx = append(st.Ctx, i == 0 || r.Chance(80))
 	}
 	st.N = n / st.Producers
 	return st
@@ -447,9 +450,9 @@ func genJobs(r *lib.Rand, tier string) []Job {
 	for i := 0; i < ni; i++ {
 		js = append(js, Job{Kind: "iso", Iso: genIso(r.Fork(), states, churn)})
 	}
-	nst, vol := 4, 120000
+	nst, vol := 5, 15000
 	if tier == "thorough" {
-		nst, vol = 30, 400000
+		nst, vol = 40, 60000
 	}
 	for i := 0; i < nst; i++ {
 		js = append(js, Job{Kind: "stress", Stress: genStress(r.Fork(), vol)})
